@@ -54,6 +54,16 @@ CHECKS = {
              'compared with a list; set results with Python sets plus the ordering rule. Bounded model checking.',
         note='Trusted: CrossHair/z3 exhaustion, list/set as oracle. Outside: >384 dead intervals, negative slice steps, iterators as operands, larger sets.',
         ref='C11'),
+    'C14': dict(
+        technique='bounded symbolic execution (CrossHair/z3 string theory) of args2sh/args2cmd on one symbolic Unicode argument, re-split by '
+                  'independent POSIX-shell / MS-CRT reference splitters; integer-list functions over solver-chosen subsets',
+        text='args2sh: for EVERY argument of length <= 2 over all of Unicode except NUL, placed between concrete neighbours, the produced text '
+             'is split by a POSIX word-splitter (which rejects any unquoted expandable/glob/operator character) into exactly the arguments; '
+             'args2cmd likewise for length <= 3 under the documented MS C runtime rules; escape_shell_args dispatch. format/parse/complement/'
+             'int_ranges: every subset of 0..9 with duplicates and reversed order, every window. The gzip round-trip clause is NOT decided '
+             '(zlib is C code; a symbolic payload would be realised to one value) and is not claimed. Bounded model checking.',
+        note='Trusted: CrossHair string/regex model, z3, the two reference splitters. Outside: longer arguments, NUL, gzip clause.',
+        ref='C14'),
     'C17': dict(
         technique='bounded symbolic execution (CrossHair/z3) of the real OneToOne/ManyToMany/FrozenDict methods: '
                   'one arbitrary operation from an arbitrary reachable pre-state, equality pattern of keys/values decided by the solver',
